@@ -29,6 +29,8 @@ pub enum Op {
     SetComplete,
     AllocToi,
     DropToi(usize),
+    /// allocate and immediately drop `n` TOI handles (moves the allocator's cursor, e.g. a full cycle of a 16-bit space)
+    ChurnToi(u32),
     /// emit the explicit close-session packet
     CloseSession,
 }
@@ -99,6 +101,8 @@ pub enum OpResult {
     Removed(bool),
     Triggered(bool),
     Toi(u128),
+    /// n handles allocated and dropped; the values are in `SenderTrace::churn_values`
+    Churned { n: u32, first: u128, last: u128 },
     Done,
     Skipped,
 }
@@ -157,6 +161,10 @@ pub struct SenderTrace {
     /// allocator's reserved-TOI count at the end (hook) and handles the driver still holds
     pub toi_reserved_at_end: usize,
     pub handles_held_at_end: usize,
+    /// (event seq, allocator's reserved-TOI count) sampled after every operation and every poll
+    pub toi_reserved_samples: Vec<(u64, usize)>,
+    /// values returned by each ChurnToi operation: (event seq of the op, values)
+    pub churn_values: Vec<(u64, Vec<u128>)>,
 }
 
 pub struct GapGen {
@@ -198,6 +206,8 @@ pub struct Driver {
     pub trace: SenderTrace,
     sub: Arc<SubLog>,
     handles: Vec<Option<Box<Toi>>>,
+    /// which object of the scenario currently owns a TOI (TOIs are reused once their object is gone)
+    toi_owner: std::collections::BTreeMap<u128, usize>,
     ctx: Ctx,
     scratch: std::path::PathBuf,
     pub cross_check: bool,
@@ -222,6 +232,7 @@ impl Driver {
             trace,
             sub,
             handles: Vec::new(),
+            toi_owner: Default::default(),
             ctx: ctx.clone(),
             scratch: scratch.to_path_buf(),
             cross_check: true,
@@ -233,6 +244,7 @@ impl Driver {
         let now = systime_us(t_us);
         let pkts_before = self.trace.pkts.len();
         flute::verif::reset_loop_budget(LOOP_BUDGET);
+        let mut churned: Option<Vec<u128>> = None;
         let result = match &op {
             Op::Add(i) => match scn.objects.get(*i) {
                 None => OpResult::Skipped,
@@ -249,6 +261,7 @@ impl Driver {
                         match self.sender.add_object(spec.prio, obj) {
                             Ok(toi) => {
                                 self.trace.obj_toi[*i] = Some(toi);
+                                self.toi_owner.insert(toi, *i);
                                 OpResult::Added(toi)
                             }
                             Err(e) => OpResult::AddRejected(format!("{:?}", e)),
@@ -257,11 +270,12 @@ impl Driver {
                 },
             },
             Op::Publish => OpResult::Published(self.sender.publish(now).is_ok()),
-            Op::Remove(i) => match self.trace.obj_toi.get(*i).copied().flatten() {
+            // (an object whose TOI has meanwhile been given to a later object is gone: its TOI no longer names it)
+            Op::Remove(i) => match self.trace.obj_toi.get(*i).copied().flatten().filter(|t| self.toi_owner.get(t) == Some(i)) {
                 Some(toi) => OpResult::Removed(self.sender.remove_object(toi)),
                 None => OpResult::Skipped,
             },
-            Op::Trigger { obj, at_us } => match self.trace.obj_toi.get(*obj).copied().flatten() {
+            Op::Trigger { obj, at_us } => match self.trace.obj_toi.get(*obj).copied().flatten().filter(|t| self.toi_owner.get(t) == Some(obj)) {
                 Some(toi) => OpResult::Triggered(
                     self.sender
                         .trigger_transfer_at(toi, at_us.map(|u| systime_us(t0_us() + u))),
@@ -286,6 +300,16 @@ impl Driver {
                 }
                 _ => OpResult::Skipped,
             },
+            Op::ChurnToi(n) => {
+                let mut values = Vec::with_capacity(*n as usize);
+                for _ in 0..*n {
+                    let h = self.sender.allocate_toi();
+                    values.push(h.get());
+                }
+                let r = OpResult::Churned { n: *n, first: values.first().copied().unwrap_or(0), last: values.last().copied().unwrap_or(0) };
+                churned = Some(values);
+                r
+            }
             Op::CloseSession => {
                 let bytes = self.sender.read_close_session(now);
                 let poll = self.trace.polls.len();
@@ -305,9 +329,14 @@ impl Driver {
                 Op::SetComplete => "S:complete",
                 Op::AllocToi => "S:alloc",
                 Op::DropToi(_) => "S:droptoi",
+                Op::ChurnToi(_) => "S:churntoi",
                 Op::CloseSession => "S:close",
             });
         }
+        if let Some(v) = churned {
+            self.trace.churn_values.push((seq, v));
+        }
+        self.trace.toi_reserved_samples.push((seq, self.sender.verif_toi_reserved_count()));
         self.trace.ops.push(OpRec {
             seq,
             t_us,
@@ -459,6 +488,8 @@ impl Driver {
                     }
                 }
             }
+            let seq_now = self.ctx.borrow().next_seq();
+            self.trace.toi_reserved_samples.push((seq_now, self.sender.verif_toi_reserved_count()));
             self.trace.polls.push(PollRec {
                 t_us,
                 seq_begin,
